@@ -5,6 +5,7 @@ package main
 
 import (
 	"bytes"
+	"context"
 	"encoding/json"
 	"fmt"
 
@@ -13,10 +14,12 @@ import (
 	apiequality "k8s.io/apimachinery/pkg/api/equality"
 	metav1 "k8s.io/apimachinery/pkg/apis/meta/v1"
 	"k8s.io/apimachinery/pkg/runtime"
+	kubefake "k8s.io/client-go/kubernetes/fake"
 	clientscheme "k8s.io/client-go/kubernetes/scheme"
 
 	apps "github.com/pingcap/advanced-statefulset/client/apis/apps/v1"
 	"github.com/pingcap/advanced-statefulset/client/apis/apps/v1/helper"
+	asfake "github.com/pingcap/advanced-statefulset/client/client/clientset/versioned/fake"
 	"github.com/pingcap/advanced-statefulset/pkg/controller/statefulset"
 )
 
@@ -150,6 +153,22 @@ func init() {
 			if err == nil {
 				pa, _ := statefulset.VerifGetPatch(as2)
 				out["same_after_from_builtin"] = bytes.Equal(pa, pb)
+			}
+			// and through the migration itself: helper.Upgrade on the built-in object stores an Advanced StatefulSet
+			// that records the same data (nothing on the way may touch the template, e.g. by defaulting it again)
+			kc := kubefake.NewSimpleClientset(b.DeepCopy())
+			ac := asfake.NewSimpleClientset()
+			if _, err := helper.Upgrade(context.TODO(), kc, ac, b.DeepCopy()); err != nil {
+				out["upgrade_err"] = err.Error()
+			} else if stored, err := ac.AppsV1().StatefulSets(b.Namespace).Get(context.TODO(), b.Name, metav1.GetOptions{}); err != nil {
+				out["upgrade_err"] = err.Error()
+			} else {
+				pu, _ := statefulset.VerifGetPatch(stored)
+				out["same_after_upgrade"] = bytes.Equal(pu, pb)
+				if !bytes.Equal(pu, pb) {
+					out["after_upgrade"] = string(pu)
+					out["builtin"] = string(pb)
+				}
 			}
 			h0 := int32(0)
 			r1, _ := statefulset.VerifNewRevision(base, 1, &h0)
